@@ -58,30 +58,16 @@ example : ¬ Consistent 1 ⟨false, [0], [], [], 1⟩ := fun h => by
   have := (consistentB_iff 1 _).mpr h
   revert this; decide
 
-/-! ## Plans that cannot fire before a given fault index -/
+/-! ## Plans that agree on the fault points a run passes -/
 
-/-- the plan does not fire at any fault point with index `< c` -/
-def NotBefore (P : Plan) (c : Nat) : Prop :=
-  match P with
-  | some (k, _) => c ≤ k
-  | none => True
+/-- the two plans prescribe the same at every fault index `< c` -/
+def Agree (P P' : Plan) (c : Nat) : Prop := ∀ i, i < c → P' i = P i
 
-theorem NotBefore.mono {P : Plan} {c c' : Nat} (h : NotBefore P c) (hle : c' ≤ c) : NotBefore P c' := by
-  unfold NotBefore at *
-  cases P with
-  | none => trivial
-  | some p => exact Nat.le_trans hle h
+theorem Agree.mono {P P' : Plan} {c c' : Nat} (h : Agree P P' c) (hle : c' ≤ c) : Agree P P' c' :=
+  fun i hi => h i (Nat.lt_of_lt_of_le hi hle)
 
-private theorem fault_none_of_notBefore {P : Plan} {s : St} (h : NotBefore P (s.cnt + 1)) : fault P s = none := by
-  unfold fault
-  unfold NotBefore at h
-  cases P with
-  | none => rfl
-  | some p =>
-    obtain ⟨k, κ⟩ := p
-    simp only at h ⊢
-    have : ¬ s.cnt = k := by omega
-    simp [this]
+private theorem fault_eq_of_agree {P P' : Plan} {s : St} (h : Agree P P' (s.cnt + 1)) : fault P' s = fault P s :=
+  h s.cnt (Nat.lt_succ_self _)
 
 /-! ## The fault counter only grows -/
 
@@ -127,12 +113,9 @@ theorem exec_cnt_le (P : Plan) : ∀ (f : Nat) (p : Prog) (s : St), s.cnt ≤ (e
         simp only [exec]
         refine Nat.le_trans (ih body s) (Nat.le_trans (handleRes_cnt_le (ih h)) (andThen_cnt_le (ih rest)))
 
-/-! ## A plan that is not reached is as good as no plan -/
+/-! ## Only the plan entries below the number of fault points passed matter -/
 
-private theorem fault_trace (P : Plan) (s : St) (tr : List Nat) : fault P { s with trace := tr } = fault P s := by
-  cases P with
-  | none => rfl
-  | some p => rfl
+private theorem fault_trace (P : Plan) (s : St) (tr : List Nat) : fault P { s with trace := tr } = fault P s := rfl
 
 private theorem stepAtom_io_cnt (P : Plan) (id : Nat) (s : St) : (stepAtom P id .io s).1.cnt = s.cnt + 1 := by
   unfold stepAtom
@@ -145,28 +128,36 @@ private theorem stepAtom_tOpen_cnt (P : Plan) (id t : Nat) (s : St) (hc : s.link
   simp only [hc, Bool.false_eq_true, if_false]
   split <;> rfl
 
+private theorem stepAtom_tClose_cnt (P : Plan) (id t : Nat) (s : St) (hc : s.links.contains t = true) :
+    (stepAtom P id (.tClose t) s).1.cnt = s.cnt + 1 := by
+  unfold stepAtom
+  simp only [hc, if_true]
+  split <;> rfl
+
 theorem stepAtom_plan_irrel {P P' : Plan} {id : Nat} {a : Atom} {s : St}
-    (h : NotBefore P (stepAtom P id a s).1.cnt) (h' : NotBefore P' (stepAtom P id a s).1.cnt) :
-    stepAtom P' id a s = stepAtom P id a s := by
+    (h : Agree P P' (stepAtom P id a s).1.cnt) : stepAtom P' id a s = stepAtom P id a s := by
   cases a with
   | pure => rfl
   | checkClosed => rfl
   | checkOpen => rfl
   | superOpen => rfl
   | superClose => rfl
-  | tClose t => rfl
+  | tClose t =>
+    cases hc : s.links.contains t
+    · simp only [stepAtom, hc, Bool.false_eq_true, if_false]
+    · rw [stepAtom_tClose_cnt P id t s hc] at h
+      have e := fault_eq_of_agree h
+      simp only [stepAtom, hc, if_true, fault_trace, e]
   | tOpen t =>
     cases hc : s.links.contains t
-    · rw [stepAtom_tOpen_cnt P id t s hc] at h h'
-      have e1 := fault_none_of_notBefore h
-      have e2 := fault_none_of_notBefore h'
-      simp only [stepAtom, hc, Bool.false_eq_true, if_false, fault_trace, e1, e2]
+    · rw [stepAtom_tOpen_cnt P id t s hc] at h
+      have e := fault_eq_of_agree h
+      simp only [stepAtom, hc, Bool.false_eq_true, if_false, fault_trace, e]
     · simp only [stepAtom, hc, if_true]
   | io =>
-    rw [stepAtom_io_cnt P id s] at h h'
-    have e1 := fault_none_of_notBefore h
-    have e2 := fault_none_of_notBefore h'
-    simp only [stepAtom, fault_trace, e1, e2]
+    rw [stepAtom_io_cnt P id s] at h
+    have e := fault_eq_of_agree h
+    simp only [stepAtom, fault_trace, e]
 
 theorem andThen_ok {r : St × Res} {k : St → St × Res} (h : r.2 = .ok) : andThen r k = k r.1 := by
   unfold andThen; rw [h]
@@ -178,30 +169,29 @@ theorem andThen_not_ok {r : St × Res} {k : St → St × Res} (h : r.2 ≠ .ok) 
   · rfl
 
 theorem exec_plan_irrel {P P' : Plan} : ∀ (f : Nat) (p : Prog) (s : St),
-    NotBefore P (exec P f p s).1.cnt → NotBefore P' (exec P f p s).1.cnt → exec P' f p s = exec P f p s := by
+    Agree P P' (exec P f p s).1.cnt → exec P' f p s = exec P f p s := by
   intro f
   induction f with
-  | zero => intro p s _ _; simp [exec]
+  | zero => intro p s _; simp [exec]
   | succ f ih =>
-    intro p s h h'
+    intro p s h
     cases p with
     | nil => simp [exec]
     | cons st rest =>
       cases st with
       | atom id a =>
-        simp only [exec] at h h' ⊢
+        simp only [exec] at h ⊢
         have hle : (stepAtom P id a s).1.cnt ≤ (andThen (stepAtom P id a s) (exec P f rest)).1.cnt :=
           andThen_cnt_le (exec_cnt_le P f rest)
-        have hA : stepAtom P' id a s = stepAtom P id a s := stepAtom_plan_irrel (h.mono hle) (h'.mono hle)
+        have hA : stepAtom P' id a s = stepAtom P id a s := stepAtom_plan_irrel (h.mono hle)
         rw [hA]
         by_cases hok : (stepAtom P id a s).2 = .ok
-        · rw [andThen_ok hok] at h h'
+        · rw [andThen_ok hok] at h
           rw [andThen_ok hok, andThen_ok hok]
-          exact ih rest _ h h'
+          exact ih rest _ h
         · rw [andThen_not_ok hok, andThen_not_ok hok]
       | try_ body cs hd ex =>
-        simp only [exec] at h h' ⊢
-        -- abbreviations
+        simp only [exec] at h ⊢
         have hH : ∀ Q : Plan, ∀ s, s.cnt ≤ (exec Q f hd s).1.cnt := fun Q => exec_cnt_le Q f hd
         have hle2 : (handleRes cs ex (exec P f body s) (exec P f hd)).1.cnt ≤
             (andThen (handleRes cs ex (exec P f body s) (exec P f hd)) (exec P f rest)).1.cnt :=
@@ -209,40 +199,41 @@ theorem exec_plan_irrel {P P' : Plan} : ∀ (f : Nat) (p : Prog) (s : St),
         have hle1 : (exec P f body s).1.cnt ≤ (handleRes cs ex (exec P f body s) (exec P f hd)).1.cnt :=
           handleRes_cnt_le (hH P)
         have hB : exec P' f body s = exec P f body s :=
-          ih body s (h.mono (Nat.le_trans hle1 hle2)) (h'.mono (Nat.le_trans hle1 hle2))
+          ih body s (h.mono (Nat.le_trans hle1 hle2))
         have hT : handleRes cs ex (exec P' f body s) (exec P' f hd) = handleRes cs ex (exec P f body s) (exec P f hd) := by
           rw [hB]
           have hN := h.mono hle2
-          have hN' := h'.mono hle2
-          unfold handleRes at hN hN' ⊢
+          unfold handleRes at hN ⊢
           split
           · next κ hκ =>
-            simp only [hκ] at hN hN'
+            simp only [hκ] at hN
             split
             · next hc =>
-              simp only [hc, if_true] at hN hN'
+              simp only [hc, if_true] at hN
               have hHd : exec P' f hd (exec P f body s).1 = exec P f hd (exec P f body s).1 := by
                 apply ih hd
-                · revert hN; split <;> exact id
-                · revert hN'; split <;> exact id
+                revert hN; split <;> exact id
               simp only [hHd]
             · rfl
           · rfl
         rw [hT]
         by_cases hok : (handleRes cs ex (exec P f body s) (exec P f hd)).2 = .ok
-        · rw [andThen_ok hok] at h h'
+        · rw [andThen_ok hok] at h
           rw [andThen_ok hok, andThen_ok hok]
-          exact ih rest _ h h'
+          exact ih rest _ h
         · rw [andThen_not_ok hok, andThen_not_ok hok]
 
+private theorem agree_single {k c : Nat} (κ : Kind) (h : c ≤ k) : Agree noFault (single k κ) c := by
+  intro i hi
+  have : ¬ i = k := by omega
+  simp [single, noFault, this]
+
 /-- **fault_beyond_end.** A plan whose index is at least the number of fault points passed by the fault-free
-    run behaves like "no fault"; so `∀ plan` reduces to the finite table `k < freeCount d` × κ. -/
+    run behaves like "no fault"; so "for every k" reduces to the finite table `k < freeCount d` × κ. -/
 theorem fault_beyond_end (d : Driver) (k : Nat) (κ : Kind) (h : freeCount d ≤ k) :
-    runOpen d (some (k, κ)) = runOpen d none := by
+    runOpen d (single k κ) = runOpen d noFault := by
   unfold runOpen
-  apply exec_plan_irrel (P := none) (P' := some (k, κ))
-  · trivial
-  · exact h
+  exact exec_plan_irrel (P := noFault) (P' := single k κ) fuel0 d.openP init (agree_single κ h)
 
 /-- non-vacuity: a K10CR1-shaped driver passes 3 fault points; plan index 7 lies beyond the end -/
 private def demo : Driver :=
@@ -251,15 +242,16 @@ private def demo : Driver :=
               .try_ [.atom 4 .io, .atom 5 .io] allKinds [.atom 6 (.tClose 0)] .reraise, .atom 8 .superOpen],
     closeP := [.atom 1 .superClose, .atom 2 (.tClose 0)] }
 example : freeCount demo = 3 := by decide
-example : runOpen demo (some (7, .os)) = runOpen demo none := fault_beyond_end demo 7 .os (by decide)
-example : (runOpen demo (some (2, .os))).2 = .raised .os ∧ (runOpen demo none).2 = .ok := by decide
+example : runOpen demo (single 7 .os) = runOpen demo noFault := fault_beyond_end demo 7 .os (by decide)
+example : (runOpen demo (single 2 .os)).2 = .raised .os ∧ (runOpen demo noFault).2 = .ok := by decide
 
-/-- the same for any program, fuel and start state -/
+/-- the same for any program, fuel and start state; and in general: two plans that agree below the number of
+    fault points the run passes give the same run (`exec_plan_irrel`) -/
 theorem fault_beyond_end_exec (f : Nat) (p : Prog) (s : St) (k : Nat) (κ : Kind)
-    (h : (exec none f p s).1.cnt ≤ k) : exec (some (k, κ)) f p s = exec none f p s :=
-  exec_plan_irrel (P := none) (P' := some (k, κ)) f p s trivial h
+    (h : (exec noFault f p s).1.cnt ≤ k) : exec (single k κ) f p s = exec noFault f p s :=
+  exec_plan_irrel (P := noFault) (P' := single k κ) f p s (agree_single κ h)
 
-/-! ## From the finite table to all plans -/
+/-! ## From the finite table to all single-fault plans -/
 
 private theorem rowOK_spec {d : Driver} {P : Plan} (h : rowOK d P = true) :
     Consistent d.nlinks (runOpen d P).1 ∧ (runOpen d P).2 ≠ .outOfFuel := by
@@ -267,31 +259,32 @@ private theorem rowOK_spec {d : Driver} {P : Plan} (h : rowOK d P = true) :
   simp only [Bool.and_eq_true, bne_iff_ne, ne_eq] at h
   exact ⟨(consistentB_iff _ _).mp h.1, h.2⟩
 
-/-- per-class theorem `ok_<Driver>` is this lemma applied to `decide +kernel` of the table -/
+/-- the run is consistent and complete -/
+def GoodRun (d : Driver) (P : Plan) : Prop :=
+  Consistent d.nlinks (runOpen d P).1 ∧ (runOpen d P).2 ≠ .outOfFuel
+
+/-- the table covers the fault-free run and every plan of the property statement
+    ("the k-th device I/O of open() fails with κ", every k, every κ) -/
 theorem all_plans_of_table (d : Driver) (h : checkAll d = true) :
-    ∀ plan, Consistent d.nlinks (runOpen d plan).1 ∧ (runOpen d plan).2 ≠ .outOfFuel := by
+    GoodRun d noFault ∧ ∀ k κ, GoodRun d (single k κ) := by
   unfold checkAll at h
   rw [Bool.and_eq_true] at h
   obtain ⟨h0, htab⟩ := h
-  intro plan
-  cases plan with
-  | none => exact rowOK_spec h0
-  | some p =>
-    obtain ⟨k, κ⟩ := p
-    by_cases hk : k < freeCount d
-    · rw [List.all_eq_true] at htab
-      have h1 := htab k (List.mem_range.mpr hk)
-      rw [List.all_eq_true] at h1
-      exact rowOK_spec (h1 κ (mem_allKinds κ))
-    · rw [fault_beyond_end d k κ (Nat.le_of_not_lt hk)]
-      exact rowOK_spec h0
+  refine ⟨rowOK_spec h0, fun k κ => ?_⟩
+  by_cases hk : k < freeCount d
+  · rw [List.all_eq_true] at htab
+    have h1 := htab k (List.mem_range.mpr hk)
+    rw [List.all_eq_true] at h1
+    exact rowOK_spec (h1 κ (mem_allKinds κ))
+  · unfold GoodRun
+    rw [fault_beyond_end d k κ (Nat.le_of_not_lt hk)]
+    exact rowOK_spec h0
 
-example : ∀ plan, Consistent demo.nlinks (runOpen demo plan).1 ∧ (runOpen demo plan).2 ≠ .outOfFuel :=
-  all_plans_of_table demo (by decide)
+example : GoodRun demo noFault ∧ ∀ k κ, GoodRun demo (single k κ) := all_plans_of_table demo (by decide)
 
-/-- per-class theorem `exact_<Driver>`: every plan is consistent except the listed ones -/
+/-- per-class theorem `exact_<Driver>`: every single-fault plan is consistent except the listed ones -/
 theorem all_plans_except_of_table (d : Driver) (bad : List (Nat × Kind)) (h : checkAllExcept d bad = true) :
-    ∀ k κ, Consistent d.nlinks (runOpen d (some (k, κ))).1 ∨ (k, κ) ∈ bad := by
+    ∀ k κ, Consistent d.nlinks (runOpen d (single k κ)).1 ∨ (k, κ) ∈ bad := by
   unfold checkAllExcept at h
   rw [Bool.and_eq_true] at h
   obtain ⟨h0, htab⟩ := h
@@ -399,10 +392,10 @@ theorem closed_no_io (P : Plan) (f : Nat) (p : Prog) (s : St) (hp : AllAtoms Not
     instrument the first is refused, none reaches the device -/
 example : AllAtoms NotOpening [.atom 1 .checkOpen, .atom 2 .io] :=
   .atom ⟨fun _ => by simp, by simp⟩ (.atom ⟨fun _ => by simp, by simp⟩ .nil)
-example : (exec none 10 [.atom 1 .checkOpen, .atom 2 .io] init).2 = .raised .invalidOp := by decide
-example : (exec none 10 [.atom 2 .io] init).1.ioLog = [] := by decide
+example : (exec noFault 10 [.atom 1 .checkOpen, .atom 2 .io] init).2 = .raised .invalidOp := by decide
+example : (exec noFault 10 [.atom 2 .io] init).1.ioLog = [] := by decide
 /-- … whereas on an open instrument the same method does reach the device -/
-example : (exec none 10 [.atom 1 .checkOpen, .atom 2 .io] ⟨true, [0], [], [], 0⟩).1.ioLog = [2] := by decide
+example : (exec noFault 10 [.atom 1 .checkOpen, .atom 2 .io] ⟨true, [0], [], [], 0⟩).1.ioLog = [2] := by decide
 
 
 /-! ## Opening an open / closing a closed instrument is refused -/
@@ -684,11 +677,13 @@ private theorem allPure_run (P : Plan) : ∀ (r : Prog) (f : Nat) (s : St), allP
         rw [e, andThen_ok rfl]
         exact ih f _ h
 
-/-- the cleanup handler, run while the link is held and the flag not set, releases the link and cannot fail -/
+/-- the cleanup handler, run while the link is held and the flag not set, releases the link — also when the
+    transport's `close()` itself fails (the link then counts as released and the new exception propagates) -/
 private theorem handler_run (P : Plan) : ∀ (h : Prog) (f : Nat) (s : St), handlerOK h = true →
     s.instrOpen = false → s.links = [0] →
     (exec P f h s).2 = .outOfFuel ∨
-    ((exec P f h s).2 = .ok ∧ (exec P f h s).1.instrOpen = false ∧ (exec P f h s).1.links = []) := by
+    ((exec P f h s).2 = .ok ∧ (exec P f h s).1.instrOpen = false ∧ (exec P f h s).1.links = []) ∨
+    (∃ κ', (exec P f h s).2 = .raised κ' ∧ (exec P f h s).1.instrOpen = false ∧ (exec P f h s).1.links = []) := by
   intro h
   induction h with
   | nil => intro f s hh; simp [handlerOK] at hh
@@ -713,14 +708,29 @@ private theorem handler_run (P : Plan) : ∀ (h : Prog) (f : Nat) (s : St), hand
           | zero =>
             simp only [handlerOK] at hh
             simp only [exec]
-            have e : stepAtom P id (.tClose 0) s =
-                ({ s with trace := id :: s.trace, links := [], ioLog := id :: s.ioLog }, .ok) := by
-              simp [stepAtom, h2]
-            rw [e, andThen_ok rfl]
-            have := allPure_run P rest f { s with trace := id :: s.trace, links := [], ioLog := id :: s.ioLog } hh
-            rcases this with ⟨hr | hr, hf, hl⟩
-            · exact Or.inr ⟨hr, by rw [hf]; exact h1, by rw [hl]⟩
-            · exact Or.inl hr
+            have hc : s.links.contains 0 = true := by rw [h2]; rfl
+            have hfil : s.links.filter (· != 0) = [] := by rw [h2]; rfl
+            cases hf : fault P s with
+            | some κ' =>
+              have e : stepAtom P id (.tClose 0) s =
+                  ({ s with trace := id :: s.trace, cnt := s.cnt + 1, links := s.links.filter (· != 0),
+                            ioLog := id :: s.ioLog }, .raised κ') := by
+                unfold stepAtom
+                simp only [fault_trace, hf, hc, if_true]
+              rw [e, andThen_not_ok (by simp)]
+              exact Or.inr (Or.inr ⟨κ', rfl, h1, hfil⟩)
+            | none =>
+              have e : stepAtom P id (.tClose 0) s =
+                  ({ s with trace := id :: s.trace, cnt := s.cnt + 1, links := s.links.filter (· != 0),
+                            ioLog := id :: s.ioLog }, .ok) := by
+                unfold stepAtom
+                simp only [fault_trace, hf, hc, if_true]
+              rw [e, andThen_ok rfl]
+              have := allPure_run P rest f
+                ({ s with trace := id :: s.trace, cnt := s.cnt + 1, links := s.links.filter (· != 0), ioLog := id :: s.ioLog } : St) hh
+              rcases this with ⟨hr | hr, hfl, hl⟩
+              · exact Or.inr (Or.inl ⟨hr, by rw [hfl]; exact h1, by rw [hl]; exact hfil⟩)
+              · exact Or.inl hr
         | io => simp [handlerOK] at hh
         | checkClosed => simp [handlerOK] at hh
         | checkOpen => simp [handlerOK] at hh
@@ -786,7 +796,7 @@ private theorem mid_run (P : Plan) : ∀ (p : Prog) (f : Nat) (s : St), wfMid p 
         | raised κ =>
           have hc := catchesAll_contains hcatch κ
           have hh := handler_run P hd f (exec P f body s).1 hhd (hb.1.trans h1) (hb.2.trans h2)
-          rcases hh with hoof | ⟨hok, hfl, hln⟩
+          rcases hh with hoof | ⟨hok, hfl, hln⟩ | ⟨κ', hr2, hfl, hln⟩
           · have e : handleRes cs ex (exec P f body s) (exec P f hd) = exec P f hd (exec P f body s).1 := by
               unfold handleRes; simp only [hres, hc, if_true]; rw [hoof]
             rw [e, andThen_not_ok (by rw [hoof]; simp)] at hfuel
@@ -797,6 +807,10 @@ private theorem mid_run (P : Plan) : ∀ (p : Prog) (f : Nat) (s : St), wfMid p 
             have hne : ex.apply κ ≠ .ok := by
               cases ex <;> simp [Exit.apply] at hex ⊢
             rw [e, andThen_not_ok hne]
+            exact Or.inl ⟨hfl, hln⟩
+          · have e : handleRes cs ex (exec P f body s) (exec P f hd) = exec P f hd (exec P f body s).1 := by
+              unfold handleRes; simp only [hres, hc, if_true]; rw [hr2]
+            rw [e, andThen_not_ok (by rw [hr2]; simp)]
             exact Or.inl ⟨hfl, hln⟩
 
 /-- a well-formed `open()` ends fully closed or fully open — under every fault plan -/
@@ -884,7 +898,7 @@ example : wfOpen [.atom 1 .pure, .atom 2 (.tOpen 0), .try_ [.atom 4 .io] [.os] [
 def CoreEq (a b : St) : Prop := a.instrOpen = b.instrOpen ∧ a.links = b.links
 
 private theorem stepAtom_congr (id : Nat) (x : Atom) {a b : St} (h : CoreEq a b) :
-    (stepAtom none id x a).2 = (stepAtom none id x b).2 ∧ CoreEq (stepAtom none id x a).1 (stepAtom none id x b).1 := by
+    (stepAtom noFault id x a).2 = (stepAtom noFault id x b).2 ∧ CoreEq (stepAtom noFault id x a).1 (stepAtom noFault id x b).1 := by
   obtain ⟨fa, la, ia, ta, ca⟩ := a
   obtain ⟨fb, lb, ib, tb, cb⟩ := b
   obtain ⟨h1, h2⟩ := h
@@ -932,7 +946,7 @@ private theorem handleRes_congr {cs : List Kind} {ex : Exit} {r r' : St × Res} 
 
 /-- fault-free runs from two states with the same flag and links end alike -/
 theorem exec_congr : ∀ (f : Nat) (p : Prog) (a b : St), CoreEq a b →
-    (exec none f p a).2 = (exec none f p b).2 ∧ CoreEq (exec none f p a).1 (exec none f p b).1 := by
+    (exec noFault f p a).2 = (exec noFault f p b).2 ∧ CoreEq (exec noFault f p a).1 (exec noFault f p b).1 := by
   intro f
   induction f with
   | zero => intro p a b h; exact ⟨rfl, h⟩
@@ -959,8 +973,8 @@ theorem exec_congr : ∀ (f : Nat) (p : Prog) (a b : St), CoreEq a b →
 theorem retry_possible (n : Nat) (P : Plan) (f : Nat) (p : Prog)
     (hcons : Consistent n (exec P f p init).1) (hclosed : (exec P f p init).1.instrOpen = false) :
     FullyClosed (exec P f p init).1 ∧
-    (exec none f p (exec P f p init).1).2 = (exec none f p init).2 ∧
-    CoreEq (exec none f p (exec P f p init).1).1 (exec none f p init).1 := by
+    (exec noFault f p (exec P f p init).1).2 = (exec noFault f p init).2 ∧
+    CoreEq (exec noFault f p (exec P f p init).1).1 (exec noFault f p init).1 := by
   have hl : (exec P f p init).1.links = [] := links_nil_of_no_link (fun t => hcons.2 hclosed t)
   have hc : CoreEq (exec P f p init).1 init := ⟨hclosed, hl⟩
   exact ⟨⟨hclosed, hl⟩, exec_congr f p _ _ hc⟩
@@ -969,14 +983,14 @@ theorem retry_possible (n : Nat) (P : Plan) (f : Nat) (p : Prog)
 example :
     let p : Prog := [.atom 1 .checkClosed, .atom 2 (.tOpen 0),
       .try_ [.atom 4 .io, .atom 5 .io] allKinds [.atom 6 (.tClose 0)] .reraise, .atom 8 .superOpen]
-    let r := exec (some (2, .timeout)) 50 p init
-    r.2 = .raised .timeout ∧ consistentB 1 r.1 = true ∧ r.1.instrOpen = false ∧ (exec none 50 p r.1).2 = .ok := by decide
+    let r := exec (single 2 .timeout) 50 p init
+    r.2 = .raised .timeout ∧ consistentB 1 r.1 = true ∧ r.1.instrOpen = false ∧ (exec noFault 50 p r.1).2 = .ok := by decide
 /-- historical example (shape of `Cobolt_Laser_06_01.open()` before fix 6a9048d; a constant, not the source):
     the failed open leaves the link held, the retry is refused for ever -/
 example :
     let p : Prog := [.atom 1 .pure, .atom 2 (.tOpen 0), .atom 3 .io, .atom 4 .superOpen]
-    let r := exec (some (1, .timeout)) 50 p init
-    consistentB 1 r.1 = false ∧ (exec none 50 p r.1).2 = .raised .invalidOp := by decide
+    let r := exec (single 1 .timeout) 50 p init
+    consistentB 1 r.1 = false ∧ (exec noFault 50 p r.1).2 = .raised .invalidOp := by decide
 
 /-! ## close() after open() -/
 
@@ -1002,8 +1016,8 @@ def wfClose : Prog → Bool
   | _ => false
 
 private theorem closeB2_run : ∀ (c : Prog) (f : Nat) (s : St), wfCloseB2 c = true →
-    s.instrOpen = false → s.links = [0] → (exec none f c s).2 ≠ .outOfFuel →
-    (exec none f c s).2 = .ok ∧ FullyClosed (exec none f c s).1 := by
+    s.instrOpen = false → s.links = [0] → (exec noFault f c s).2 ≠ .outOfFuel →
+    (exec noFault f c s).2 = .ok ∧ FullyClosed (exec noFault f c s).1 := by
   intro c
   induction c with
   | nil => intro f s h; simp [wfCloseB2] at h
@@ -1019,7 +1033,7 @@ private theorem closeB2_run : ∀ (c : Prog) (f : Nat) (s : St), wfCloseB2 c = t
         | pure =>
           simp only [wfCloseB2] at hw
           simp only [exec] at hfuel ⊢
-          have e : stepAtom none id .pure s = ({ s with trace := id :: s.trace }, .ok) := rfl
+          have e : stepAtom noFault id .pure s = ({ s with trace := id :: s.trace }, .ok) := rfl
           rw [e, andThen_ok rfl] at hfuel ⊢
           exact ih f _ hw h1 h2 hfuel
         | tClose t =>
@@ -1028,11 +1042,12 @@ private theorem closeB2_run : ∀ (c : Prog) (f : Nat) (s : St), wfCloseB2 c = t
           | zero =>
             simp only [wfCloseB2] at hw
             simp only [exec] at hfuel ⊢
-            have e : stepAtom none id (.tClose 0) s =
-                ({ s with trace := id :: s.trace, links := [], ioLog := id :: s.ioLog }, .ok) := by
-              simp [stepAtom, h2]
+            have e : stepAtom noFault id (.tClose 0) s =
+                ({ s with trace := id :: s.trace, cnt := s.cnt + 1, links := [], ioLog := id :: s.ioLog }, .ok) := by
+              simp [stepAtom, h2, fault, noFault]
             rw [e, andThen_ok rfl] at hfuel ⊢
-            have := allPure_run none rest f { s with trace := id :: s.trace, links := [], ioLog := id :: s.ioLog } hw
+            have := allPure_run noFault rest f
+              ({ s with trace := id :: s.trace, cnt := s.cnt + 1, links := [], ioLog := id :: s.ioLog } : St) hw
             rcases this with ⟨hr | hr, hf, hl⟩
             · exact ⟨hr, by rw [hf]; exact h1, by rw [hl]⟩
             · exact absurd hr hfuel
@@ -1044,8 +1059,8 @@ private theorem closeB2_run : ∀ (c : Prog) (f : Nat) (s : St), wfCloseB2 c = t
         | tOpen t => simp [wfCloseB2] at hw
 
 private theorem closeB1_run : ∀ (c : Prog) (f : Nat) (s : St), wfCloseB1 c = true →
-    s.instrOpen = true → s.links = [] → (exec none f c s).2 ≠ .outOfFuel →
-    (exec none f c s).2 = .ok ∧ FullyClosed (exec none f c s).1 := by
+    s.instrOpen = true → s.links = [] → (exec noFault f c s).2 ≠ .outOfFuel →
+    (exec noFault f c s).2 = .ok ∧ FullyClosed (exec noFault f c s).1 := by
   intro c
   induction c with
   | nil => intro f s h; simp [wfCloseB1] at h
@@ -1061,17 +1076,17 @@ private theorem closeB1_run : ∀ (c : Prog) (f : Nat) (s : St), wfCloseB1 c = t
         | pure =>
           simp only [wfCloseB1] at hw
           simp only [exec] at hfuel ⊢
-          have e : stepAtom none id .pure s = ({ s with trace := id :: s.trace }, .ok) := rfl
+          have e : stepAtom noFault id .pure s = ({ s with trace := id :: s.trace }, .ok) := rfl
           rw [e, andThen_ok rfl] at hfuel ⊢
           exact ih f _ hw h1 h2 hfuel
         | superClose =>
           simp only [wfCloseB1] at hw
           simp only [exec] at hfuel ⊢
-          have e : stepAtom none id .superClose s =
+          have e : stepAtom noFault id .superClose s =
               ({ s with trace := id :: s.trace, instrOpen := false }, .ok) := by
             simp [stepAtom, h1]
           rw [e, andThen_ok rfl] at hfuel ⊢
-          have := allPure_run none rest f { s with trace := id :: s.trace, instrOpen := false } hw
+          have := allPure_run noFault rest f ({ s with trace := id :: s.trace, instrOpen := false } : St) hw
           rcases this with ⟨hr | hr, hf, hl⟩
           · exact ⟨hr, by rw [hf], by rw [hl]; exact h2⟩
           · exact absurd hr hfuel
@@ -1083,8 +1098,8 @@ private theorem closeB1_run : ∀ (c : Prog) (f : Nat) (s : St), wfCloseB1 c = t
         | tOpen t => simp [wfCloseB1] at hw
 
 theorem close_of_fully_open : ∀ (c : Prog) (f : Nat) (s : St), wfClose c = true →
-    s.instrOpen = true → s.links = [0] → (exec none f c s).2 ≠ .outOfFuel →
-    (exec none f c s).2 = .ok ∧ FullyClosed (exec none f c s).1 := by
+    s.instrOpen = true → s.links = [0] → (exec noFault f c s).2 ≠ .outOfFuel →
+    (exec noFault f c s).2 = .ok ∧ FullyClosed (exec noFault f c s).1 := by
   intro c
   induction c with
   | nil => intro f s h; simp [wfClose] at h
@@ -1100,27 +1115,27 @@ theorem close_of_fully_open : ∀ (c : Prog) (f : Nat) (s : St), wfClose c = tru
         | pure =>
           simp only [wfClose] at hw
           simp only [exec] at hfuel ⊢
-          have e : stepAtom none id .pure s = ({ s with trace := id :: s.trace }, .ok) := rfl
+          have e : stepAtom noFault id .pure s = ({ s with trace := id :: s.trace }, .ok) := rfl
           rw [e, andThen_ok rfl] at hfuel ⊢
           exact ih f _ hw h1 h2 hfuel
         | io =>
           simp only [wfClose] at hw
           simp only [exec] at hfuel ⊢
-          have e : stepAtom none id .io s =
+          have e : stepAtom noFault id .io s =
               ({ s with trace := id :: s.trace, cnt := s.cnt + 1, ioLog := logIO id { s with trace := id :: s.trace } }, .ok) := rfl
           rw [e, andThen_ok rfl] at hfuel ⊢
           exact ih f _ hw h1 h2 hfuel
         | checkOpen =>
           simp only [wfClose] at hw
           simp only [exec] at hfuel ⊢
-          have e : stepAtom none id .checkOpen s = ({ s with trace := id :: s.trace }, .ok) := by
+          have e : stepAtom noFault id .checkOpen s = ({ s with trace := id :: s.trace }, .ok) := by
             simp [stepAtom, h1]
           rw [e, andThen_ok rfl] at hfuel ⊢
           exact ih f _ hw h1 h2 hfuel
         | superClose =>
           simp only [wfClose] at hw
           simp only [exec] at hfuel ⊢
-          have e : stepAtom none id .superClose s = ({ s with trace := id :: s.trace, instrOpen := false }, .ok) := by
+          have e : stepAtom noFault id .superClose s = ({ s with trace := id :: s.trace, instrOpen := false }, .ok) := by
             simp [stepAtom, h1]
           rw [e, andThen_ok rfl] at hfuel ⊢
           exact closeB2_run rest f _ hw rfl h2 hfuel
@@ -1130,9 +1145,9 @@ theorem close_of_fully_open : ∀ (c : Prog) (f : Nat) (s : St), wfClose c = tru
           | zero =>
             simp only [wfClose] at hw
             simp only [exec] at hfuel ⊢
-            have e : stepAtom none id (.tClose 0) s =
-                ({ s with trace := id :: s.trace, links := [], ioLog := id :: s.ioLog }, .ok) := by
-              simp [stepAtom, h2]
+            have e : stepAtom noFault id (.tClose 0) s =
+                ({ s with trace := id :: s.trace, cnt := s.cnt + 1, links := [], ioLog := id :: s.ioLog }, .ok) := by
+              simp [stepAtom, h2, fault, noFault]
             rw [e, andThen_ok rfl] at hfuel ⊢
             exact closeB1_run rest f _ hw h1 rfl hfuel
         | checkClosed => simp [wfClose] at hw
@@ -1145,9 +1160,9 @@ theorem close_of_fully_open : ∀ (c : Prog) (f : Nat) (s : St), wfClose c = tru
 theorem close_after_open (P : Plan) (po pc : Prog) (f f' : Nat) (s : St)
     (hwo : wfOpen po = true) (hwc : wfClose pc = true) (hs : FullyClosed s)
     (hfuel : (exec P f po s).2 ≠ .outOfFuel) (hopen : (exec P f po s).1.instrOpen = true)
-    (hfuel' : (exec none f' pc (exec P f po s).1).2 ≠ .outOfFuel) :
+    (hfuel' : (exec noFault f' pc (exec P f po s).1).2 ≠ .outOfFuel) :
     (exec P f po s).1.links = [0] ∧
-    (exec none f' pc (exec P f po s).1).2 = .ok ∧ FullyClosed (exec none f' pc (exec P f po s).1).1 := by
+    (exec noFault f' pc (exec P f po s).1).2 = .ok ∧ FullyClosed (exec noFault f' pc (exec P f po s).1).1 := by
   rcases settled_of_wf P po f s hwo hs hfuel with ⟨h1, _⟩ | ⟨h1, h2⟩
   · rw [h1] at hopen; exact Bool.noConfusion hopen
   · exact ⟨h2, close_of_fully_open pc f' _ hwc h1 h2 hfuel'⟩
@@ -1157,8 +1172,8 @@ example : wfClose [.atom 1 .pure, .atom 2 .superClose, .atom 3 (.tClose 0)] = tr
 example : wfClose [.atom 1 .checkOpen, .atom 2 .pure, .atom 3 (.tClose 0), .atom 4 .superClose] = true := by decide
 example :
     let po : Prog := [.atom 1 .pure, .atom 2 (.tOpen 0), .atom 3 .superOpen, .atom 4 .io]
-    wfOpen po = true ∧ (exec (some (1, .instr)) 50 po init).2 = .raised .instr ∧
-      (exec (some (1, .instr)) 50 po init).1.instrOpen = true := by decide
+    wfOpen po = true ∧ (exec (single 1 .instr) 50 po init).2 = .raised .instr ∧
+      (exec (single 1 .instr) 50 po init).1.instrOpen = true := by decide
 
 /-! ## The general discipline: a plan-independent abstract run
 
@@ -1394,8 +1409,8 @@ example : safeOpen 1 [.atom 1 .pure, .atom 2 .superOpen, .atom 3 (.tOpen 0)] = f
 
 private theorem absAtom_sound_none (id : Nat) (a : Atom) (s : St) (σ' : Core) (cr : Bool)
     (h : absAtom a (core s) = some (σ', cr)) :
-    (stepAtom none id a s).2 = .ok ∧ core (stepAtom none id a s).1 = σ' := by
-  rcases absAtom_sound none id a s σ' cr h with hok | ⟨_, κ, hr, _⟩
+    (stepAtom noFault id a s).2 = .ok ∧ core (stepAtom noFault id a s).1 = σ' := by
+  rcases absAtom_sound noFault id a s σ' cr h with hok | ⟨_, κ, hr, _⟩
   · exact hok
   · -- without a plan no fault point raises, and `absAtom` excluded the state-determined raises
     exfalso
@@ -1418,7 +1433,7 @@ private theorem absAtom_sound_none (id : Nat) (a : Atom) (s : St) (σ' : Core) (
 
 theorem chk_sound_nofault : ∀ (f : Nat) (K : Core → Bool) (σ : Core) (p : Prog) (σ' : Core),
     chk f K σ p = some σ' → ∀ s : St, core s = σ →
-    (exec none f p s).2 = .ok ∧ core (exec none f p s).1 = σ' := by
+    (exec noFault f p s).2 = .ok ∧ core (exec noFault f p s).1 = σ' := by
   intro f
   induction f with
   | zero => intro K σ p σ' h; simp [chk] at h
@@ -1456,7 +1471,7 @@ theorem chk_sound_nofault : ∀ (f : Nat) (K : Core → Bool) (σ : Core) (p : P
         | some σ1 =>
           simp only [hb] at h
           have hbody := ih Kb σ body σ1 hb s hs
-          have e : handleRes cs ex (exec none f body s) (exec none f hd) = exec none f body s := by
+          have e : handleRes cs ex (exec noFault f body s) (exec noFault f hd) = exec noFault f body s := by
             unfold handleRes; rw [hbody.1]
           rw [e, andThen_ok hbody.1]
           exact ih K σ1 rest σ' h _ hbody.2
@@ -1474,9 +1489,9 @@ def safeClose (n : Nat) (po pc : Prog) : Bool :=
 /-- **close_after_open_safe** (generalises the success part of `close_after_open` to any number of links):
     a successful `open()` opens every link, and `close()` then succeeds and leaves the instrument fully closed. -/
 theorem close_after_open_safe (n : Nat) (po pc : Prog) (h : safeClose n po pc = true) (s : St) (hs : FullyClosed s) :
-    (exec none fuel0 po s).2 = .ok ∧ FullyOpen n (exec none fuel0 po s).1 ∧
-    (exec none fuel0 pc (exec none fuel0 po s).1).2 = .ok ∧
-    FullyClosed (exec none fuel0 pc (exec none fuel0 po s).1).1 := by
+    (exec noFault fuel0 po s).2 = .ok ∧ FullyOpen n (exec noFault fuel0 po s).1 ∧
+    (exec noFault fuel0 pc (exec noFault fuel0 po s).1).2 = .ok ∧
+    FullyClosed (exec noFault fuel0 pc (exec noFault fuel0 po s).1).1 := by
   unfold safeClose at h
   cases hc : chk fuel0 (goodB n) (false, []) po with
   | none => simp [hc] at h
@@ -1491,11 +1506,11 @@ theorem close_after_open_safe (n : Nat) (po pc : Prog) (h : safeClose n po pc = 
     | some τ =>
       simp only [hc2, Bool.and_eq_true, Bool.not_eq_true', List.isEmpty_iff] at hclose
       have hcl := chk_sound_nofault fuel0 (fun _ => true) σ pc τ hc2 _ ho.2
-      have hflag' : (exec none fuel0 po s).1.instrOpen = true := by
+      have hflag' : (exec noFault fuel0 po s).1.instrOpen = true := by
         have := congrArg Prod.fst ho.2
         simp only [core] at this
         rw [this]; exact hflag
-      have hcons : Consistent n (exec none fuel0 po s).1 :=
+      have hcons : Consistent n (exec noFault fuel0 po s).1 :=
         (consistentB_iff _ _).mp (by rw [← goodB_core, ho.2]; exact hgood)
       refine ⟨ho.1, ⟨hflag', hcons.1 hflag'⟩, hcl.1, ?_, ?_⟩
       · have := congrArg Prod.fst hcl.2
